@@ -2,6 +2,7 @@ package props
 
 import (
 	"fmt"
+	"html/template"
 	"math"
 	"reflect"
 	"strings"
@@ -312,6 +313,9 @@ func c19Run(b *core.B) {
 	}{
 		{"", 0}, {"abc", 3}, {"é✓", 5}, {"\xff\xfe", 2}, {[]int{1, 2}, 2}, {[]string{}, 0}, {[3]int{}, 3}, {map[string]int{"a": 1}, 1},
 		{&[]int{1, 2, 3}, 3}, {&[2]int{}, 2}, {&map[int]int{1: 1, 2: 2}, 2}, {[]interface{}{nil, nil}, 2}, {map[string]int(nil), 0}, {[]int(nil), 0},
+		// a string is a string whatever its type is called; named slice / map types; pointers to them
+		{template.HTML("<b>x</b>"), 8}, {namedStr("named"), 5}, {c19PtrTo(namedStr("pn")), 2}, {c19PtrTo("plain"), 5}, {c19PtrTo(template.HTML("é")), 2},
+		{c19Ints{1, 2, 3}, 3}, {c19Map{"a": 1}, 1}, {&c19Ints{4}, 1}, {[]namedStr{"a", "b"}, 2}, {[2]template.HTML{}, 2},
 	}
 	for _, c := range lens {
 		if !mine() || !b.Begin(fmt.Sprintf("len(%#v)", c.v)) {
@@ -336,6 +340,11 @@ func c19Run(b *core.B) {
 		}
 	}
 }
+
+type c19Ints []int
+type c19Map map[string]int
+
+func c19PtrTo[V any](v V) *V { return &v }
 
 // breakCase loops over a huge interval and leaves after three elements.
 func breakCase(b *core.B, idx *int64, call string, first3 []int) {
@@ -467,7 +476,7 @@ func init() {
 	core.Register(&core.Prop{
 		ID:         "C19",
 		Level:      "exploration",
-		Rule:       "range(a,b), between(a,b), until(n) called directly for all a, b, n in [-8, 8] (thorough: [-24, 24]) and {MinInt, MinInt+1, MaxInt-1, MaxInt} (all pairs, 441 + extremes) with expectations from overflow-checked arithmetic (sequences longer than 64 are checked on their first 64 elements and for not ending early) and drained with a Next() budget of expected+2, so termination is decided by count; the same helpers through a template for loop for all small arguments; iterators.GroupBy and plush.GroupByHelper for every length 0-40 x n in [-2, 12] x {[]string, []int, []struct, []*struct, *[]int, [5]int, *[5]int} plus random larger cases, judged by the partition laws (at most n groups, consecutive, concatenation = input, all but the last of equal size, errors for n <= 0 and non-sequences) and against each other; len on strings (multi-byte, invalid UTF-8), slices, arrays, maps, pointers to them, directly and through a template. Enumerated cases are distinct by construction.",
+		Rule:       "range(a,b), between(a,b), until(n) called directly for all a, b, n in [-8, 8] (thorough: [-24, 24]) and {MinInt, MinInt+1, MaxInt-1, MaxInt} (all pairs, 441 + extremes) with expectations from overflow-checked arithmetic (sequences longer than 64 are checked on their first 64 elements and for not ending early) and drained with a Next() budget of expected+2, so termination is decided by count; the same helpers through a template for loop for all small arguments; iterators.GroupBy and plush.GroupByHelper for every length 0-40 x n in [-2, 12] x {[]string, []int, []struct, []*struct, *[]int, [5]int, *[5]int} plus random larger cases, judged by the partition laws (at most n groups, consecutive, concatenation = input, all but the last of equal size, errors for n <= 0 and non-sequences) and against each other; len on strings (multi-byte, invalid UTF-8, named string types such as template.HTML), slices, arrays, maps (also of named types), pointers to them, directly and through a template. Enumerated cases are distinct by construction.",
 		Assume:     []string{"element order of a sequence is what Next() returns until the first nil"},
 		Batches:    batchesQT(8, 16),
 		Run:        c19Run,
